@@ -28,6 +28,10 @@ pub struct Truth {
     pub cc: Option<u8>,
     /// control response carrying a completion code 6-255, for which no `CompletionCode` exists
     pub cc_undefined: bool,
+    /// header unsupported, but the type field (byte 8, low 7 bits) names a supported type: an error
+    /// that reports *that* type is a true statement about the input too (C09 only says "Invalid only
+    /// for an unsupported header", not "an unsupported header only as Invalid")
+    pub claimed_ty: Option<u8>,
 }
 
 /// Byte-determined facts about an input (also used by classify.rs).
@@ -94,13 +98,14 @@ pub fn decide(x: &[u8]) -> RefOut {
         return RefOut::OutOfClaim("longer-than-smbus-maximum");
     }
     if !f.hdr_ok {
-        return RefOut::Reject(Truth { hdr_bad: true, ty: None, pec_bad: !f.pec_ok, len_bad: false, cc: None, cc_undefined: false });
+        let claimed_ty = if f.ty_ok { Some(f.ty) } else { None };
+        return RefOut::Reject(Truth { hdr_bad: true, ty: None, pec_bad: !f.pec_ok, len_bad: false, cc: None, cc_undefined: false, claimed_ty });
     }
     if f.ty != TY_CONTROL {
         if f.pec_ok {
             return RefOut::Accept { ty: f.ty, a: 9, b: n - 1 };
         }
-        return RefOut::Reject(Truth { hdr_bad: false, ty: Some(f.ty), pec_bad: true, len_bad: false, cc: None, cc_undefined: false });
+        return RefOut::Reject(Truth { hdr_bad: false, ty: Some(f.ty), pec_bad: true, len_bad: false, cc: None, cc_undefined: false, claimed_ty: None });
     }
     // control
     if f.rq {
@@ -112,7 +117,7 @@ pub fn decide(x: &[u8]) -> RefOut {
         if f.pec_ok && !len_bad {
             return RefOut::Accept { ty: TY_CONTROL, a: 11, b: n - 1 };
         }
-        RefOut::Reject(Truth { hdr_bad: false, ty: Some(TY_CONTROL), pec_bad: !f.pec_ok, len_bad, cc: None, cc_undefined: false })
+        RefOut::Reject(Truth { hdr_bad: false, ty: Some(TY_CONTROL), pec_bad: !f.pec_ok, len_bad, cc: None, cc_undefined: false, claimed_ty: None })
     } else {
         if n < 13 {
             return RefOut::OutOfClaim("ctrl-resp-short<13");
@@ -121,7 +126,7 @@ pub fn decide(x: &[u8]) -> RefOut {
             // a completion code without a CompletionCode variant (the decoder used to panic here;
             // repaired by c0966df): not Success, so it must be rejected; no error value can carry
             // the code, so the condition-free ControlMessage(Unknown) is the truthful report
-            return RefOut::Reject(Truth { hdr_bad: false, ty: Some(TY_CONTROL), pec_bad: !f.pec_ok, len_bad: false, cc: None, cc_undefined: true });
+            return RefOut::Reject(Truth { hdr_bad: false, ty: Some(TY_CONTROL), pec_bad: !f.pec_ok, len_bad: false, cc: None, cc_undefined: true, claimed_ty: None });
         }
         if f.cc != 0 {
             return RefOut::Reject(Truth {
@@ -131,6 +136,7 @@ pub fn decide(x: &[u8]) -> RefOut {
                 len_bad: false, // length of an unsuccessful response is not specified
                 cc: Some(f.cc),
                 cc_undefined: false,
+                claimed_ty: None,
             });
         }
         if resp_len_outside_claim(f.cmd) {
@@ -141,7 +147,7 @@ pub fn decide(x: &[u8]) -> RefOut {
         if f.pec_ok && !len_bad {
             return RefOut::Accept { ty: TY_CONTROL, a: 12, b: n - 1 };
         }
-        RefOut::Reject(Truth { hdr_bad: false, ty: Some(TY_CONTROL), pec_bad: !f.pec_ok, len_bad, cc: None, cc_undefined: false })
+        RefOut::Reject(Truth { hdr_bad: false, ty: Some(TY_CONTROL), pec_bad: !f.pec_ok, len_bad, cc: None, cc_undefined: false, claimed_ty: None })
     }
 }
 
